@@ -166,6 +166,30 @@ theorem fraction_x_bounds (E : Env α) (hc : CastExact E) (ll : Pt α) {z : Nat}
     linarith [show (180 : α) / 360 = 1 / 2 by norm_num]
   exact ⟨mul_nonneg h0 (le_of_lt hp), by nlinarith⟩
 
+/-- In exact arithmetic the west-edge step-back of `At` never fires: a column that is not to the
+    right of the fraction has its west edge at or west of the longitude. -/
+theorem stepback_inactive (E : Env α) (hc : CastExact E) (ll : Pt α) {z : Nat} (hz : z ≤ 31)
+    (x1 : Nat) (h : (x1 : α) ≤ (fraction E ll z).x) :
+    ¬ (ll.x < 360 * (E.ofNat x1 / E.ofNat (2 ^ z) - 1 / 2)) := by
+  rw [hc, hc]
+  rw [fraction_x E hc ll hz] at h
+  have hp := two_pow_pos (α := α) z
+  have h2 : (x1 : α) / (2 : α) ^ z ≤ ll.x / 360 + 1 / 2 := by
+    rw [div_le_iff₀ hp]; exact h
+  push_cast
+  intro hlt
+  linarith
+
+/-- `At`'s column is the clamped floor whenever that is not to the right of the fraction. -/
+theorem at_x_eq (E : Env α) (hc : CastExact E) (ll : Pt α) {z : Nat} (hz : z ≤ 31) (n x1 : Nat)
+    (hfl : E.floorU32 (fraction E ll z).x = n)
+    (hx1 : x1 = if 2 ^ z ≠ 0 ∧ n ≥ 2 ^ z then 2 ^ z - 1 else n)
+    (h : (x1 : α) ≤ (fraction E ll z).x) : (at_ E ll z).x = x1 := by
+  simp only [at_, hfl, shl32_one hz]
+  rw [← hx1, if_neg]
+  rintro ⟨_, _, hlt⟩
+  exact stepback_inactive E hc ll hz x1 h hlt
+
 /-- the column computed by `At` for a longitude in `[-180, 180]` -/
 theorem at_x_spec (E : Env α) (hc : CastExact E) (hf : FloorSpec E) (ll : Pt α) {z : Nat}
     (hz : z ≤ 31) (hlo : -180 ≤ ll.x) (hhi : ll.x ≤ 180) :
@@ -178,7 +202,11 @@ theorem at_x_spec (E : Env α) (hc : CastExact E) (hf : FloorSpec E) (ll : Pt α
   have hfl : E.floorU32 (fraction E ll z).x = n := hf _ n hl hu
   have hpos : 0 < 2 ^ z := Nat.pos_of_ne_zero (by positivity)
   have hx : (at_ E ll z).x = if 2 ^ z ≠ 0 ∧ n ≥ 2 ^ z then 2 ^ z - 1 else n := by
-    simp only [at_, hfl, shl32_one hz]
+    apply at_x_eq E hc ll hz n _ hfl rfl
+    have hle : (if 2 ^ z ≠ 0 ∧ n ≥ 2 ^ z then 2 ^ z - 1 else n) ≤ n := by split_ifs <;> omega
+    have : (((if 2 ^ z ≠ 0 ∧ n ≥ 2 ^ z then 2 ^ z - 1 else n : Nat)) : α) ≤ (n : α) := by
+      exact_mod_cast hle
+    linarith
   constructor
   · rw [hx]; split_ifs <;> omega
   · intro hlt
@@ -323,8 +351,9 @@ theorem at_x_antimeridian (E : Env α) (hc : CastExact E) (hf : FloorSpec E) (ll
     rw [hfx]; apply hf
     · exact le_refl _
     · linarith
-  simp only [at_, hfl, shl32_one hz]
-  rw [if_pos ⟨by omega, le_refl _⟩]
+  apply at_x_eq E hc ll hz (2 ^ z) _ hfl
+  · rw [if_pos ⟨by omega, le_refl _⟩]
+  · rw [hfx]; exact_mod_cast Nat.sub_le _ _
 
 /-- … hence also in the closed sense of `orb.Bound.Contains` — and in that sense for the whole closed
     range of longitudes `[−180, 180]`: at `lon = 180` the point lies ON the east edge of the last
@@ -433,8 +462,9 @@ theorem center_maps_back' (E : Env α) (hc : CastExact E) (hf : FloorSpec E)
     · rwa [div_le_iff₀ hp] at hm_lo
     · rwa [lt_div_iff₀ hp] at hm_hi
   have hxx : (at_ E c t.z).x = t.x := by
-    simp only [at_, hflx, shl32_one hz]
-    rw [if_neg]; omega
+    apply at_x_eq E hc c hz t.x _ hflx
+    · rw [if_neg]; omega
+    · rw [hfx]; linarith
   have hyy : (at_ E c t.z).y = t.y := by rw [at_y, hfly]
   exact tile_ext hxx hyy rfl
 
@@ -705,7 +735,12 @@ theorem at_toy_example : at_ toyEnv ⟨180, 0⟩ 3 = ⟨7, 4, 3⟩ := by
     rw [hfx]; apply hf <;> norm_num
   have hy : toyEnv.floorU32 (fraction toyEnv ⟨180, 0⟩ 3).y = 4 := by
     rw [hfy]; apply hf <;> norm_num
-  simp only [at_, hx, hy, hs]
-  decide
+  obtain ⟨hc, -⟩ := toyEnv_hyps
+  have hxx : (at_ toyEnv ⟨180, 0⟩ 3).x = 7 := by
+    apply at_x_eq toyEnv hc ⟨180, 0⟩ (by decide) 8 _ hx
+    · decide
+    · rw [hfx]; norm_num
+  have hyy : (at_ toyEnv ⟨180, 0⟩ 3).y = 4 := by rw [at_y, hy]
+  exact tile_ext hxx hyy rfl
 
 end Orb.TileGeo
